@@ -9,7 +9,7 @@ set_option linter.unusedSimpArgs false
 set_option linter.unusedVariables false
 set_option linter.unusedSectionVars false
 namespace MitmVerif.C50.V6
-open MitmVerif MitmVerif.C21 MitmVerif.C50.Codecs
+open MitmVerif MitmVerif.C21 MitmVerif.C50
 
 /-- is this the shape for which inet_ntop6 writes a dotted quad? -/
 def embedded (best : Option Run) (w5 : Nat) : Prop :=
@@ -149,12 +149,12 @@ theorem parseIp_pyTextV6 (ad : Bytes) (h : ad.length = 16) :
 end MitmVerif.C50.V6
 
 namespace MitmVerif.C50.V6
-open MitmVerif MitmVerif.C21 MitmVerif.C50 MitmVerif.C50.Codecs
+open MitmVerif MitmVerif.C21 MitmVerif.C50
 
 theorem beNat_snoc (l : Bytes) (b : UInt8) : beNat (l ++ [b]) = beNat l * 256 + b.toNat := by
   simp [beNat, List.foldl_append]
 
-theorem beBytes_beNat : ∀ (k : Nat) (l : Bytes), l.length = k → beBytes k (beNat l) = l := by
+theorem beBytes_beNat : ∀ (k : Nat) (l : Bytes), l.length = k → Codecs.beBytes k (beNat l) = l := by
   intro k
   induction k with
   | zero => intro l h; have : l = [] := List.length_eq_zero_iff.mp h; subst this; rfl
@@ -167,7 +167,7 @@ theorem beBytes_beNat : ∀ (k : Nat) (l : Bytes), l.length = k → beBytes k (b
     have hb := UInt8.toNat_lt (l.getLast hne)
     have h1 : (beNat l.dropLast * 256 + (l.getLast hne).toNat) / 256 = beNat l.dropLast := by omega
     have h2 : (beNat l.dropLast * 256 + (l.getLast hne).toNat) % 256 = (l.getLast hne).toNat := by omega
-    simp only [beBytes, h1, h2, ih _ hlen]
+    simp only [Codecs.beBytes, h1, h2, ih _ hlen]
     simp
 
 theorem hexChar_ascii : ∀ n : Fin 16, (hexChar n.val).toNat < 128 := by decide
@@ -219,12 +219,12 @@ theorem pyTextV6_ascii (ad : Bytes) : ∀ c ∈ Codecs.pyTextV6 ad, c.toNat < 12
     · split at hc <;> simp at hc; subst hc; decide
     · simp at hc
 
-theorem bytesOf_text (t : List Char) : bytesOf (t.map Char.toNat) = asciiBytes t := by
-  simp [bytesOf, asciiBytes, List.map_map, Function.comp_def]
+theorem bytesOf_text (t : List Char) : Codecs.bytesOf (t.map Char.toNat) = asciiBytes t := by
+  simp [Codecs.bytesOf, asciiBytes, List.map_map, Function.comp_def]
 
 /-- **AAAA.** `IPv6Address(str(IPv6Address(data))).packed = data` for every 16-byte rdata -/
-theorem ip6_dec_enc (data : Bytes) (s : List Nat) (h : ip6Dec data = some s) : ip6Enc s = some data := by
-  unfold ip6Dec at h
+theorem ip6_dec_enc (data : Bytes) (s : List Nat) (h : Codecs.ip6Dec data = some s) : Codecs.ip6Enc s = some data := by
+  unfold Codecs.ip6Dec at h
   split at h
   · rename_i hlen
     cases h
@@ -238,9 +238,9 @@ theorem ip6_dec_enc (data : Bytes) (s : List Nat) (h : ip6Dec data = some s) : i
       cases h4 : C22.parseV4 (asciiBytes (Codecs.pyTextV6 data)) with
       | some n => simp [h4] at hp
       | none => simpa [h4] using hp
-    unfold ip6Enc
+    unfold Codecs.ip6Enc
     rw [if_pos hasc, bytesOf_text, hv6]
-    simp only [be128]
+    simp only [Codecs.be128]
     rw [beBytes_beNat 16 data hlen]
   · cases h
 
